@@ -22,7 +22,7 @@ STUBS = []
 ASSUMPTIONS = ["listeners are distinct callables"]
 
 # skeleton: string over R1 R2 (register on e1 / e2) and D (dispatch round)
-QUICK = ["R1 D", "D R1 D", "R1 R1 D", "R1 R2 D", "R1 D R1 D", "R1 R1 R1 D", "R1 R2 R1 D", "R1 R1 D R1 D", "R2 R1 D R2 D", "R1 D R1 D R1 D",
+QUICK = ["R1 D", "D R1 D", "R1 D D", "R1 R1 D D R1 D", "R1 R1 D", "R1 R2 D", "R1 D R1 D", "R1 R1 R1 D", "R1 R2 R1 D", "R1 R1 D R1 D", "R2 R1 D R2 D", "R1 D R1 D R1 D",
          "R1 R1 R1 R1 D", "R1 R2 D R2 R1 D", "R1 R1 D R1 R1 D"]
 THOROUGH = QUICK + ["R1 R2 R1 R2 D", "R1 R1 R1 D R1 D", "R1 D R1 D R1 R1 D",
                     "R1 R1 R1 R1 R1 D", "R1 R1 R2 D R1 R1 D D", "R1 R1 D R1 D R1 R1 D"]
@@ -111,6 +111,29 @@ def seq3(p0: int, p1: int, p2: int, s0: bool, s1: bool, s2: bool) -> bool:
     return _run(PART["skel"], [p0, p1, p2], [s0, s1, s2])
 
 
+def seqsym(k0: int, k1: int, k2: int, k3: int, p0: int, p1: int, p2: int, p3: int, s0: bool, s1: bool, s2: bool, s3: bool) -> bool:
+    """
+    pre: 0 <= k0 <= 2 and 0 <= k1 <= 2 and 0 <= k2 <= 2 and 0 <= k3 <= 2
+    pre: -1 <= p0 <= 1 and -1 <= p1 <= 1 and -1 <= p2 <= 1 and -1 <= p3 <= 1
+    pre: k0 == PART["k0"] and (PART["n"] > 3 or (k3 == 2 and p3 == 0 and not s3))
+    pre: (k0 != 2 or (p0 == 0 and not s0)) and (k1 != 2 or (p1 == 0 and not s1)) and (k2 != 2 or (p2 == 0 and not s2)) and (k3 != 2 or (p3 == 0 and not s3))
+    post: _
+    """
+    # the skeleton itself is symbolic: every sequence of n operations from {register on e1, register on e2, dispatch round}, then two dispatch rounds
+    from vf.sym import conc_int, untraced
+    kinds = [conc_int(k, 0, 2) for k in (k0, k1, k2, k3)][: PART["n"]]
+    prios, stops, skel = [], [], []
+    for k, p, st in zip(kinds, (p0, p1, p2, p3), (s0, s1, s2, s3)):
+        if k == 2:
+            skel.append("D")
+        else:
+            skel.append("R%d" % (k + 1))
+            prios.append(_conc_p(p))
+            stops.append(True if st else False)
+    skel += ["D", "D"]
+    return untraced(_run, " ".join(skel), prios + [0], stops + [False])
+
+
 def seq_twin(p0: int, p1: int, p2: int, p3: int, p4: int, s0: bool, s1: bool, s2: bool, s3: bool, s4: bool) -> bool:
     """
     pre: -1 <= p0 <= 1 and -1 <= p1 <= 1 and -1 <= p2 <= 1 and p3 == 0 and p4 == 0
@@ -128,5 +151,9 @@ def conditions(tier):
         nreg = sum(1 for s in skel.split() if s[0] == "R")
         conds.append({"name": "seq[%s]" % skel.replace(" ", ""), "fn": seq3 if nreg <= 3 else seq, "timeout": t, "part": {"skel": skel, "nreg": nreg},
                       "bounds": "skeleton %s: %d priorities in {-1,0,1} and %d stop bits symbolic" % (skel, nreg, nreg)})
+    n = 3 if tier == "quick" else 4
+    for k0 in range(3):
+        conds.append({"name": "seqsym[%d ops,first=%s]" % (n, ["R1", "R2", "D"][k0]), "fn": seqsym, "timeout": t, "part": {"k0": k0, "n": n},
+                      "bounds": "EVERY sequence of %d operations from {register on e1, register on e2 (priority in {-1,0,1}, stops or not), dispatch round}, first = %s, followed by two dispatch rounds" % (n, ["R1", "R2", "D"][k0])})
     conds.append({"name": "seq_twin", "fn": seq_twin, "timeout": t, "expect": "refute", "part": {"skel": "R1 R1 R1 D", "nreg": 3}, "bounds": "reachability twin"})
     return conds
